@@ -35,6 +35,9 @@ CHECKS = {
  "C10": dict(tech="TLA+ L1 language machine: scope model (known frames, ambiguity, arity) in Prql.tla; every ill-formed behaviour of PrqlMC replayed; acceptance of an ill-formed program rejected by TLC (PrqlTrace)",
     text="every program the bounded model marks ill-formed (reference to a dropped column, ambiguous bare name after join, arity mismatch) must make prqlc::compile return Err; every well-formed one must compile",
     ref="DESIGN.md section 4 C10"),
+ "C13": dict(tech="TLA+ source position machine (Spans.tla: character/byte offsets, line/column, span well-formedness, quoted line) with its laws model-checked over all short sources with multi-byte characters (SpansMC, which also enumerates the case space); every ErrorMessage returned for the generated erroneous sources validated by TLC (SpansTrace)",
+    text="the case space error template (lexical, syntactic, name resolution, type, argument, SQL generation) x padding (ASCII, 2-, 3-, 4-byte text) x place (comment / string / identifier before, after, earlier lines) x file layout (single file, project root, module file, path-suffix project) is enumerated by TLC and compiled; each message must have a non-empty reason, a span inside the named file, a location equal to the position of that span, a display quoting that line, and some located message must be at the planted offending token",
+    ref="DESIGN.md section 4 C13", note="trusted: TLC; pv's recording of ErrorMessages and its reading of the gutter lines of the rendered message; spans are taken to be character offsets as ErrorMessage documents"),
  "C14": dict(tech="TLA+ commuting diagram parse/format/compile (FmtLaw.tla) validated by TLC on recorded API calls (FmtTrace); expression sources are the trees of the model-checked precedence specification (Expr.tla / ExprMC) in minimal and full rendering",
     text="for every parseable source of the generators (every operator adjacency from ExprMC, literal and identifier spellings in several positions, named arguments, functions, modules, long lines, repository queries, book snippets, generated programs): parse(format(parse(src))) is the same tree modulo positions/comments, formatting the output again returns it unchanged, and source and formatted text compile to the same SQL or error",
     ref="DESIGN.md section 4 C14", note="trusted: TLC; pv's tree normalisation (span and doc_comment fields dropped) and artefact interning; self-tested by corrupting recorded ids"),
